@@ -16,7 +16,7 @@ def jobs(tier):
     take(C15, [r"(free|cell|matrix|z0\.op[0-5])\.r_max2_f_max2_pa(2_ma4_fa2|0_ma0_fa2)_fz0[01]$",
                r"add_frequency\.", r"resize\..*rows2_columns2_freqs2_pa2_ma4_fa2_fz01_new_rows3_new_columns3_new_freqs3$"], "vnadata")
     take(C16, [r"(free_vnacal|delete_calibration|add_calibration)\.alloc8$", r"(teardown|delete_parameter)\.alloc8"], "vnacal")
-    take(C13, [r"list\.alloc8_len8_op[013]_ix(7|8|9)$", r"list\.alloc8_len7_op3_ix6$", r"map\.ops(111|012|022)_keysab[ac]$"], "vnaproperty")
+    take(C13, [r"list\.alloc8_len8_op[013]_ix(7|8|9)(_noadd)?$", r"list\.alloc8_len7_op3_ix6$", r"map\.ops(111|012|022)_keysab[ac]$"], "vnaproperty")
     take(C10, [r"spline\.bad_x", r"spline\.calc_frame", r"rfi\.window\.n5_m5", r"rfi\.search"], "interp")
     take(C05, [r"convert\..*rows3_columns3_freqs1.*_inplace$"], "vnadata")
     take(C07, [r"add_(double|complex)\.upto", r"add_integer$"], "vnacal_save")
